@@ -38,6 +38,9 @@ MSG = "net::codec::Message"
 BS = "net::codec::BobState"
 
 
+EXPLANATION += ' Round 9: (R9) declined-session cells of net::handle_connection: whatever closing step fails, the error of a request we declined is the Abort or names no document; (R11) = C12.R4: the event fan-out that runs inside the store actor does not panic on closed subscribers.'
+
+
 def _mk_frame(E, f, fr, i):
     if fr == "Init":
         return E.variant(f, MSG, "Init", namespace=E.Tok("ns"), message=E.Tok("init-msg"))
